@@ -66,7 +66,7 @@ TRegWaited ==
 
 \* created directories are private; with external connections disabled nothing is served
 TSocketCheck ==
-  IF E.disabled /\ (E.exists \/ E.dial_ok) THEN Reject("C17-socket-served-when-disabled", <<E.umask>>)
+  IF E.disabled /\ (E.exists \/ E.dial_ok) THEN Reject("C17-socket-served-when-disabled", <<E.umask, E.options>>)
   ELSE IF ~E.disabled /\ ~(E.exists /\ E.dial_ok) THEN Reject("C17-socket-not-served", <<E.umask>>)
   ELSE IF ~E.disabled /\ (Len(E.modes) # 3 \/ \E i \in DOMAIN E.modes : E.modes[i] % 64 # 0)
        THEN Reject("C17-socket-directory-not-private", <<E.umask, E.modes>>)
@@ -224,6 +224,9 @@ TRet ==
        THEN Reject("C06-result-incomplete", <<r, E.tags>>)
   ELSE Skip
 
+\* the reply a caller got is its own: re-read after later requests were processed, it has not changed
+TRecheck == IF E.tags # E.tags2 THEN Reject("C06-result-changed-after-return", <<E.req, E.tags, E.tags2>>) ELSE Skip
+
 \* ------------------------------------------------------ unsolicited updates --
 TLockedUpdate ==
   IF rlock # "" THEN Reject("C19-lock-overlap", <<E.uid, rlock>>)
@@ -295,6 +298,7 @@ TraceNext ==
        [] E.ev = "closed"           -> TClosed
        [] E.ev = "leaving"          -> TLeaving
        [] E.ev = "ret"              -> TRet
+       [] E.ev = "recheck"          -> TRecheck
        [] E.ev = "updatefn.enter"   -> TUpdEnter
        [] E.ev = "updatefn.leave"   -> TUpdLeave
        [] E.ev = "upd.call"         -> TUpdCall
